@@ -22,7 +22,8 @@ CHECKS = {
     "C03": ("exploration", "4.C03",
             "Each SRC entry (words, flags, CCIN, every callout with FRU/PCE/MRU parts, registry message filled by value, "
             "procedure descriptions) is compared with the model on every decode; word counts 1..9, all flag bytes, 0..12 "
-            "callouts, all legal FRU flag combinations, fixture message registry.",
+            "callouts, all legal FRU flag combinations, fixture message registry; every registry entry is decoded again as twins "
+            "that differ in one word (word counts 0..9).",
             "trusts encoder, fixture registry (vf/fixtures/registry), frozen tables",
             "post-condition monitor on parsePEL against an independent model"),
     "C04": ("exploration", "4.C04",
@@ -79,7 +80,8 @@ CHECKS = {
             "gets an error injection fitting the call and a SIGKILL crash point (strace -e inject). An offline checker over "
             "the recorded syscall log requires unlink(input) to be preceded by the successful open/complete writes/close of "
             "that input's output; the post-state is checked too; an in-process twin (failing file proxy, failing stdout, "
-            "os.remove audit events) repeats it over many PELs x every operation index.",
+            "os.remove audit events) repeats it over many PELs x every operation index; file-output scenarios are re-run under "
+            "RLIMIT_FSIZE (kernel-made short write, then EFBIG) and judged by the post-state oracle.",
             "process-level only: no fsync/power-loss claim; trusts strace's injection and -y path decoration",
             "syscall trace checker with fault and crash-point injection (strace)"),
     "C13": ("exploration", "4.C13",
@@ -128,7 +130,9 @@ CHECKS = {
             "the result is compared with a fresh reference (a child that decoded only that PEL), scanned for unique tokens "
             "of other PELs, and the four import caches are checked against per-module fresh-import verdicts; violating "
             "histories are shrunk by delta debugging; -a/-a -r arrays are compared with per-file fresh documents; several "
-            "main() invocations in one process each print what they print in a process of their own.",
+            "main() invocations in one process each print what they print in a process of their own; histories include "
+            "decodes during which a sys.meta_path failpoint fails the first import of a plug-in package (EMFILE), and "
+            "logs built from the shadowed pattern pairs of the shipped PTE tables.",
             "os.fork gives history-free references; fixture plugins are pure functions of their arguments",
             "differential history monitor with fork-fresh references + cache invariant at quiescent points"),
     "C20": ("exploration", "4.C20",
